@@ -92,6 +92,10 @@ func c31Case(r *rand.Rand, fname string, mode string) (block string, e c31Expect
 		rxHold = "^" + strings.NewReplacer(".", "\\.", "!", "!").Replace(strings.TrimSuffix(stdout, "\n")) + "\\n$"
 	}
 	wrongType := map[string]string{"str": "json", "json": "str", "*": "json"}[stdoutType]
+	if stdoutType != "*" && r.Intn(2) == 0 {
+		// `*` names the generic type; it is not a wildcard
+		wrongType = "*"
+	}
 	if kind != "empty" {
 		cands = append(cands, cand{"StdoutRegex", "\"StdoutRegex\": " + js(rxHold), "\"StdoutRegex\": " + js(rxFail)})
 		cands = append(cands, cand{"StdoutType", "\"StdoutType\": " + js(stdoutType), "\"StdoutType\": " + js(wrongType)})
